@@ -6,7 +6,7 @@ from lib.facts import callee, callee_def, op_local
 META = {
     "level": "other",
     "technique": "static analysis: table extraction from MIR switch terminators (token kind -> operator kind -> typing arm) compared with Gleam's operator typing and with the parser's binding-power table",
-    "rule": "Y2 the call graph that forms the inference groups resolves a variable with an expression-level resolver (a local binder named "
+    "rule": "Y3 freezing a type variable restores its table entry on every path; Y2 the call graph that forms the inference groups resolves a variable with an expression-level resolver (a local binder named "
             "like a top-level function is not a call edge); Y1 every binary operator the parser accepts (infix_bp != None, except |>) has an operator kind in BinaryOp::op_details, "
             "and that kind reaches an arm of the inferencer that unifies the operands with each other and with the operand type Gleam "
             "prescribes, and yields Gleam's result type (Int/Float arithmetic, Int/Float comparison -> Bool, equality -> Bool, "
@@ -122,6 +122,21 @@ def run(F, res, tier):
     # Y2: the call graph behind the inference groups resolves callee names like the inferencer does
     from rules import c05
     c05.resolver_provenance(F, res, only="ide::def::scope::dependency_order_query", rule="Y2")
+    # Y3: freezing a type variable puts the table entry back on every path (else later collectors of the same
+    # inference group see a wiped variable and merge distinct type variables)
+    cu = F.fn("ide::ty::infer::Collector::collect_uncached")
+    dcu = FL.Defs(cu)
+    reps = []
+    for b, t in cu.calls():
+        if FL.short(callee(t) or callee_def(t)) == "mem::replace":
+            o = dcu.origin_op(t["args"][0])
+            if o.get("k") == "call" and (callee(o["t"]) or "").endswith("UnionFind::<T>::get_mut"):
+                reps.append(b)
+    rets = cu.return_blocks()
+    take = [b for b in reps if all(cu.dominates(b, r) for r in rets)]
+    put = [b for b in reps if b not in take[:1] and all(cu.dominates(b, r) for r in rets)]
+    res.ob("Y3", "collector-restores-entry", "Collector::collect_uncached takes the variable's entry out of the table and puts it back on every path to return",
+           len(reps) >= 2 and bool(take) and bool(put), where=cu.loc(), how="mem::replace(table.get_mut(i), ..) sites %d, dominating every return: %d" % (len(reps), len(take) + len(put)))
     pure = teval.Pure(F)
     kinds = F.variants(SK)
     infix = [k for k in kinds if pure.call(SK + "::infix_bp", [("e", SK, k)])[2] == "Some"]
